@@ -33,9 +33,6 @@ structure Reg (K : Type) where
   r : RState K
   tie : Bool
 
-def refStep (acc : RState K × Bool) (b : K × K) : RState K × Bool :=
-  (updateRef acc.1 b.1 b.2, acc.2 || updateTie acc.1 b.1 b.2)
-
 def decPairs (c : Codec K) : List PyVal → Option (List (K × K))
   | [] => some []
   | .list [v, f] :: rest => do
@@ -122,6 +119,11 @@ def stepOp (c : Codec K) (regs : List (Nat × Reg K)) : PyVal → Option (List (
     -- `dump()` unpacks `zip(*self.bins)`: ValueError on an empty histogram (:69)
     if g.f.bins.isEmpty then pure (regs, errOut "ValueError") else
     pure (store regs s.toNat { f := load g.f.bins g.f.min g.f.max, r := dumpLoadRef g.r, tie := g.tie }, okOut)
+  | .list [.str "rsync", .int r] => do
+    -- after an episode of open finding K01 (loaded above the limit, exact-hit / in-place updates there) the
+    -- harness judges the reference clause again *from the state reached*: the reference restarts from it
+    let g ← lookup regs r.toNat
+    pure (store regs r.toNat { f := g.f, r := g.f.toR, tie := false }, okOut)
   | .list [.str "snap", .int r] => do
     let g ← lookup regs r.toNat
     pure (regs, .list [.str "snap", encBins c g.f.bins, encOpt c g.f.min, encOpt c g.f.max,
